@@ -829,7 +829,7 @@ def run_histories(ctx, n_hist, tag):
     # (3) MiniStar programs inside histories: outcome class must equal the reference's
     if ministar:
         from props import C01
-        sub = ministar[:ctx.n(120, 1500)]
+        sub = ministar[:ctx.n(60, 1500)]
         mres, mlog = C01.run_model(ctx, [pr["coq"] for pr, _, _ in sub])
         for (pr, step, rep), m in zip(sub, mres):
             if m is None:
@@ -963,7 +963,7 @@ def correspond(ctx):
     f2, st2 = run_deep(ctx, ctx.n(300000, 1000000), "deep") if SCALE >= 1 else ([], {"deep_cases": 0, "deep_survived": 0})
     ctx.log("deep recursion: %s failures=%d" % (st2, len(f2)))
     failures += f2
-    f3, st3 = run_histories(ctx, max(10, int(ctx.n(160, 6000) * SCALE)), "hist")
+    f3, st3 = run_histories(ctx, max(10, int(ctx.n(90, 6000) * SCALE)), "hist")
     ctx.log("histories: %s failures=%d" % ({k: v for k, v in st3.items() if k != "tags"}, len(f3)))
     failures += f3
     if st3["f4_seen"]:
